@@ -8,6 +8,7 @@ import Nice.Drv.Copy
 import Nice.Drv.Addr
 import Nice.Drv.Stun
 import Nice.Drv.Sock
+import Nice.Drv.Lifecycle
 open Nice.Drv
 
 structure St where
@@ -32,6 +33,7 @@ def step (s : St) (line : String) : St × String :=
   | "copy" :: ws => (s, copyStep ws)
   | "plist" :: ws => let (p, o) := plistStep s.prio ws; ({ s with prio := p }, o)
   | "addr" :: ws => (s, addrStep ws)
+  | "lc" :: ws => (s, lcStep ws)
   | "sdp" :: ws => let (t, o) := sdpStep s.addr ws; ({ s with addr := t }, o)
   | _ => (s, "bad-op")
 
